@@ -96,7 +96,10 @@ class RefBlockServer(Peer):
             del self.asm[src]
             self.bodies.append((src, code, body))
             mflag = 1 if (self.misbehave and self.misbehave[0] == "b1-more-on-final") else 0
-            ropts.append((27, rc.block(num, mflag, rszx)))
+            fnum = num
+            if self.misbehave and self.misbehave[0] == "b1-wrong-num" and self.misbehave[1] == num and num > 0:
+                fnum = 0       # e.g. a server that lost its state and acknowledges "block 0, no more" with a success code
+            ropts.append((27, rc.block(fnum, mflag, rszx)))
             if mflag:
                 return self.reply(src, msg, 68, ropts, b"")
             if self.misbehave and self.misbehave[0] == "b1-continue-on-final":
